@@ -76,7 +76,7 @@ Definition judge_c16p (io : list Z) : list Z :=
         match skip_n (Z.to_nat fenlen) rest4 with
         | k :: rest5 =>
           match skip_n (3 * Z.to_nat k)%nat rest5 with
-          | _seed :: _rounds :: out =>
+          | _seed :: _rounds :: _stale :: out =>
             if is_panic out then
               (if base + 1 + nN + nQ <=? StoreSize then [0; 6] else [1])
             else
